@@ -19,6 +19,9 @@ type DumpOpts struct {
 	MaskEventPre    bool // leave MigrateEventInfo.preState out (known: restored from currState)
 	MaskEvents      bool // leave the migrate events out altogether
 	MaskSGTimeRange bool // not used by default
+	// not a dump option: tolerate that two replicas refuse a CreateEvent with different DDL-conflict errors (known: the first
+	// conflict met while ranging over maps is reported)
+	MaskConflictErrorChoice bool
 }
 
 func ts(t time.Time) string {
